@@ -394,6 +394,9 @@ class SyncRunner:
             elif kind == "U":
                 _, nids, fwt, fwv, image = op
                 G.real_update_fw(self.gw, list(nids), fwt, fwv, image)
+            elif kind == "F":
+                _, nids, fwt, fwv, text = op
+                G.real_update_file(self.gw, list(nids), fwt, fwv, text)
             elif kind == "T":
                 self.clock = op[1]
             elif kind == "M":
@@ -422,7 +425,7 @@ def make_schedule(rng, hist, mode):
                     toks += [("P",)] * rng.randrange(1, 4)
                 elif r < 0.5:
                     toks.append(("D",))
-        elif op[0] in ("S", "U", "T", "M"):
+        elif op[0] in ("S", "U", "F", "T", "M"):
             toks.append(("D",))
             toks.append(("O", op))
             toks.append(("D",))
